@@ -56,6 +56,9 @@ def crash_signature(text: str, mode: str) -> str | None:
             if m and not re.match(r"^[\w./\\-]+\.pyi?:", l):
                 exc = m.group(1).split(".")[-1]
                 break
+    if exc == "RecursionError":
+        # where the recursion limit is hit is arbitrary (the innermost frames differ from run to run): one class
+        return "%s|RecursionError" % mode
     return "%s|%s|%s" % (mode, exc, "<-".join(keep))
 
 
